@@ -650,10 +650,12 @@ func (v *visitor) addOp(token antlr.Token, left, right any) any {
 func (v *visitor) relOp(token antlr.Token, left, right any) any {
 	op := token.GetText()
 	switch op {
-	case "==":
-		return left == right
-	case "!=":
-		return left != right
+	case "==", "!=":
+		equal, isNum := numEqual(left, right)
+		if !isNum {
+			equal = left == right
+		}
+		return equal == (op == "==")
 	case "<", "<=", ">", ">=":
 		if i, ok := IsInt(left); ok {
 			if j, ok := IsInt(right); ok {
@@ -681,6 +683,28 @@ func (v *visitor) relOp(token antlr.Token, left, right any) any {
 	default:
 		panic("assert error: unknown relationship binary operator: " + op)
 	}
+}
+
+// numEqual 判断两个数值是否相等 与承载数值的具体 Go 类型无关(与 < > 的比较方式一致)
+// 如 int(1) == int64(1) == 1.0; 如果有一个不是数值则 isNum=false
+func numEqual(left, right any) (equal bool, isNum bool) {
+	if i, ok := IsInt(left); ok {
+		if j, ok := IsInt(right); ok {
+			return i == j, true
+		}
+		if j, ok := IsFloat(right); ok {
+			return float64(i) == j, true
+		}
+	}
+	if i, ok := IsFloat(left); ok {
+		if j, ok := IsInt(right); ok {
+			return i == float64(j), true
+		}
+		if j, ok := IsFloat(right); ok {
+			return i == j, true
+		}
+	}
+	return false, false
 }
 
 // relOp3 支持 int/float/string 三种数据类型的 关系运算符
